@@ -42,6 +42,7 @@ MC = {
     "tcp_oneway": C(),
     "tcp_oneway_inj": C(InjErr="{104}", MaxRecvs=3, Conds="{0}", Closers="{1, 2}"),
     "tcp_cond": C(Conds="{0, 1, 2, 3}", Lens="{1, 2}", MaxRecvs=3),
+    "tcp_cond_q": C(Conds="{0, 1, 2, 3}", Lens="{1, 2}", Caps="{2}", MaxSends=1, MaxRecvs=2),
     "tcp_twoway": C(Senders="{1, 2}", Receivers="{1, 2}", Lens="{1}", Caps="{2}", MaxSends=1, MaxRecvs=2, Conds="{0}", Closers="{1, 2}"),
     "btcp_oneway": C(TP='"btcp"', Lens="{0, 1, 3}", Caps="{1, 2}", MaxSends=2, MaxRecvs=4),
     "btcp_inj": C(TP='"btcp"', Lens="{0, 2}", Caps="{1, 2}", MaxSends=2, MaxRecvs=3, InjErr="{104}", Closers="{1, 2}", Conds="{0}"),
@@ -51,6 +52,35 @@ MC = {
     # named deviation: expected to violate C06_DrainFirst (known finding epipe_closes)
     "tcp_dev_epipe": C(PipeErr="TRUE", Senders="{1, 2}", Receivers="{1, 2}", Lens="{1}", Caps="{2}", MaxSends=1, MaxRecvs=2, Conds="{0}", Closers="{1, 2}"),
 }
+
+# spec/XcmLive.tla: two event-loop applications under a fair adversarial lower layer (FairSpec); safety + liveness
+LIVE = {
+    "live_tcp": dict(TP='"tcp"', N1=2, N2=1, MsgLen=2, Cap=2, Closer=0, props=["AllDelivered"]),
+    "live_tcp_close": dict(TP='"tcp"', N1=2, N2=0, MsgLen=2, Cap=1, Closer=1, props=["CloseSeen"]),
+    "live_btcp": dict(TP='"btcp"', N1=3, N2=2, MsgLen=2, Cap=1, Closer=0, props=["AllDelivered"]),
+    "live_btcp_close": dict(TP='"btcp"', N1=3, N2=0, MsgLen=2, Cap=1, Closer=1, props=["CloseSeen"]),
+    "live_ux": dict(TP='"ux"', N1=3, N2=3, MsgLen=1, Cap=1, Closer=0, props=["AllDelivered"]),
+    "live_ux_close": dict(TP='"ux"', N1=3, N2=0, MsgLen=1, Cap=1, Closer=1, props=["CloseSeen"]),
+}
+
+
+def run_live(name, broken="none"):
+    c = LIVE[name]
+    d = vlib.BUILD + "/cfg"
+    os.makedirs(d, exist_ok=True)
+    lines = ["SPECIFICATION FairSpec", "CONSTANTS", "  HdrLen = 4", "  MaxMsg = 2", '  Broken = "%s"' % broken]
+    for k in ("TP", "N1", "N2", "MsgLen", "Cap", "Closer"):
+        lines.append("  %s = %s" % (k, c[k]))
+    lines += ["INVARIANTS NoLostWakeup Quiet", "PROPERTIES " + " ".join(c["props"]), "CHECK_DEADLOCK FALSE"]
+    path = "%s/%s_%s_%d.cfg" % (d, name, broken, os.getpid())
+    with open(path, "w") as f:
+        f.write("\n".join(lines) + "\n")
+    r = vlib.tlc("XcmLive", path, workers=8, timeout=900, heap="8g", metadir="%s/live.%s.%s.%d" % (vlib.TLCDIR, name, broken, os.getpid()))
+    os.unlink(path)
+    if r["error"]:
+        raise InternalError("TLC failed on %s:\n%s" % (name, r["error"]))
+    return r
+
 
 PROPS = {
     "C01": dict(mc=["tcp_oneway", "ux_oneway", "tcp_twoway"], paths=["tcp_oneway", "ux_oneway"],
@@ -64,7 +94,9 @@ PROPS = {
     "C16": dict(mc=["tcp_cond", "ux_twoway", "btcp_oneway"], paths=["tcp_cond"], tps=["tcp", "btcp", "ux", "uxf"], raw=0.0, profile="C16"),
     "C17": dict(mc=["tcp_oneway", "ux_oneway", "btcp_oneway", "tcp_twoway"], paths=["tcp_oneway", "ux_oneway", "btcp_oneway"],
                 tps=["tcp", "ux", "btcp", "uxf", "tls", "btls", "utls", "utlst"], raw=0.0, profile="C17", blocking=0.15),
-    "C04": dict(mc=["tcp_cond", "tcp_twoway", "ux_twoway"], paths=["tcp_cond"], tps=["tcp", "btcp", "ux", "uxf"], raw=0.0, profile="C04", blocking=0.4),
+    "C04": dict(mc=["tcp_cond", "tcp_twoway", "ux_twoway"], paths=["tcp_cond"], mc_quick=["tcp_cond_q", "tcp_twoway"], paths_quick=["tcp_cond_q"],
+                tps=["tcp", "btcp", "ux", "uxf", "tls", "btls", "utls", "utlst"], raw=0.0, profile="C04", blocking=0.25, loop=0.45,
+                live=["live_tcp", "live_tcp_close", "live_btcp", "live_btcp_close", "live_ux", "live_ux_close"], live_broken=["no_pollout", "in_or_out"]),
     "C05": dict(mc=["tcp_oneway"], paths=["tcp_oneway"], tps=["tcp", "btcp", "ux", "uxf"], raw=0.1, profile="default"),
 }
 
@@ -185,8 +217,10 @@ def check(pid, tier, seed, only_random=False):
     states = transitions = 0
     mc_summary = {}
     all_paths = {}
-    for name in spec["mc"]:
-        emit = T["emit"] if name in spec["paths"] else "none"
+    mc_names = spec.get("mc_" + tier, spec["mc"])
+    path_names = spec.get("paths_" + tier, spec["paths"])
+    for name in mc_names:
+        emit = T["emit"] if name in path_names else "none"
         r, paths = run_mc(name, ALL_INV, emit)
         states += r["distinct"]
         transitions += r["generated"]
@@ -216,6 +250,24 @@ def check(pid, tier, seed, only_random=False):
         else:
             notes.append("deviation configuration %s no longer violates %s: the recorded finding %s is stale" % (name, inv, flag))
 
+    for name in spec.get("live", []):
+        r = run_live(name)
+        states += r["distinct"]
+        transitions += r["generated"]
+        mc_summary[name] = dict(distinct=r["distinct"], generated=r["generated"], depth=r["depth"], wall=round(r["wall"], 1),
+                                fairness="SF(event-loop step with full credit), WF(kernel buffer drains)", violated=r["violated"])
+        if r["violated"]:
+            rp = vlib.save_replay(pid, "tlc_%s.txt" % name, r["out"][-20000:])
+            violations.append(("design", "TLC: %s violated in liveness configuration %s" % (",".join(r["violated"]), name), rp))
+        if r["distinct"] < 50:
+            raise InternalError("liveness configuration %s explored only %d states (vacuous)" % (name, r["distinct"]))
+    for broken in spec.get("live_broken", []):
+        # vacuity guard: a deliberately broken design must be rejected by the same properties
+        r = run_live(spec["live"][0], broken)
+        mc_summary["live_broken_" + broken] = dict(distinct=r["distinct"], violated=r["violated"], expected="some violation")
+        if not r["violated"]:
+            raise InternalError("the broken design %s is accepted by the liveness configuration (vacuous properties)" % broken)
+
     # ---- 3. scripts ----------------------------------------------------------
     scripts = []
     origin = {}
@@ -242,6 +294,9 @@ def check(pid, tier, seed, only_random=False):
         if rnd.random() < spec["raw"] and tp == "tcp":
             scripts.append(conn.gen_raw_exec(rnd, xid, tp))
             origin[xid] = ("raw", None)
+        elif rnd.random() < spec.get("loop", 0.0):
+            scripts.append(conn.gen_loop_exec(rnd, xid, tp))
+            origin[xid] = ("loop", None)
         elif rnd.random() < spec.get("blocking", 0.0):
             scripts.append(conn.gen_exec(rnd, xid, tp, "blocking"))
             origin[xid] = ("blocking", None)
